@@ -507,7 +507,22 @@ pub fn eval_jet(e: &Expr, x: &[f64]) -> Jet {
                     c * u.v.powf(p - k as f64)
                 }
             };
-            Jet::unary(&u, u.v.powf(p), d(1), d(2), d(3))
+            let mut o = Jet::unary(&u, u.v.powf(p), d(1), d(2), d(3));
+            // fourth and fifth derivative in the second-order allowances: at an exactly-zero base an
+            // integer power 4 (5) has f' = f'' = f''' (= f'''') = 0 and the error of the base enters
+            // the Hessian (gradient) through f'''' x error^2 / 2 alone
+            let (a4, a5) = (d(4).abs(), d(5).abs());
+            if (a4 > 0.0 && a4.is_finite()) || (a5 > 0.0 && a5.is_finite()) {
+                let (a4, a5) = (if a4.is_finite() { a4 } else { 0.0 }, if a5.is_finite() { a5 } else { 0.0 });
+                let n = o.g.len();
+                for i in 0..n {
+                    o.gl[i] += (a4 * u.vl.powi(3) / 6.0 + a5 * u.vl.powi(4) / 24.0) * u.gl[i];
+                    for k in 0..n {
+                        o.hl[i][k] += (a4 * u.vl * u.vl / 2.0 + a5 * u.vl.powi(3) / 6.0) * (u.gl[i] * u.gl[k] + u.hl[i][k]);
+                    }
+                }
+            }
+            o
         }
         Expr::Bin(op, _, l, r) => {
             let (a, b) = (eval_jet(l, x), eval_jet(r, x));
